@@ -8,6 +8,12 @@ Read with Python `ast` (the repo code is NOT executed).  Extracted, each from on
   OP4._write_{binary,ascii}_nonbigmat   IS = (r0 + 1) + ((L + 1) << <int>)      (both writers, must agree)
   OP4._rd_nonbigmat_{binary,ascii}, _skipop4_ascii
                               L = (IS >> <int>) - 1 ; r = IS - ((L + 1) << <int>) - 1   (all must agree)
+  OP4._loadop4_ascii          perline = <int> ; numlen = <int>  (the defaults when no format is announced);
+                              the title-line slices of the `|I16` branch and of the plain branch must be
+                              (0,w) (w,2w) (2w,2w+8) (2w+8,2w+16) (2w+16,2w+24) with w = <int> each
+  OP4._rd_{dense,bigmat,nonbigmat}_ascii, _skipop4_ascii, _loadop4_ascii (second pair)
+                              c_slice/r_slice/e_slice must be slice(0,8)/slice(8,16)/slice(16,24)
+                              (the Lean reader model spells these three as literals)
 
 Anything outside these shapes raises Unparsable (-> runner.TieBroken).
 """
@@ -126,10 +132,68 @@ def extract(repo):
     if len(set(r)) != 1:
         raise Unparsable("the nonbigmat readers shift by different amounts: %s" % r)
     c["isShiftR"] = r[0]
+
+    # ---- ASCII reader -------------------------------------------------------------------------
+    la = _func(cls, "_loadop4_ascii")
+    for nm, key in (("perline", "defaultPerline"), ("numlen", "defaultNumlen")):
+        lits = [n.value for n in ast.walk(la) if isinstance(n, ast.Assign) and len(n.targets) == 1
+                and isinstance(n.targets[0], ast.Name) and n.targets[0].id == nm and isinstance(n.value, ast.Constant)]
+        if len(lits) != 1:
+            raise Unparsable("expected exactly one `%s = <int>` default in _loadop4_ascii" % nm)
+        c[key] = _int(lits[0], "default " + nm)
+
+    def slices(stmts, where):
+        out = {}
+        for st in stmts:
+            if (isinstance(st, ast.Assign) and len(st.targets) == 1 and isinstance(st.targets[0], ast.Name)
+                    and st.targets[0].id.endswith("_slice")):
+                v = st.value
+                if not (isinstance(v, ast.Call) and isinstance(v.func, ast.Name) and v.func.id == "slice" and len(v.args) == 2):
+                    raise Unparsable("%s: %s is not slice(<int>, <int>)" % (where, st.targets[0].id))
+                key = st.targets[0].id
+                val = (_int(v.args[0], key), _int(v.args[1], key))
+                if key in out and out[key] != val:
+                    raise Unparsable("%s: %s assigned two different slices" % (where, key))
+                out[key] = val
+        return out
+
+    ifs = [n for n in ast.walk(la) if isinstance(n, ast.If) and isinstance(n.test, ast.Call)
+           and isinstance(n.test.func, ast.Attribute) and n.test.func.attr == "endswith"
+           and len(n.test.args) == 1 and isinstance(n.test.args[0], ast.Constant) and n.test.args[0].value == "|I16"]
+    if len(ifs) != 1:
+        raise Unparsable("expected one `if line.endswith('|I16')` in _loadop4_ascii")
+    cut = [st for st in ifs[0].body if isinstance(st, ast.Assign) and isinstance(st.targets[0], ast.Name) and st.targets[0].id == "line"]
+    ok = (len(cut) == 1 and isinstance(cut[0].value, ast.Subscript) and isinstance(cut[0].value.slice, ast.Slice)
+          and cut[0].value.slice.lower is None and isinstance(cut[0].value.slice.upper, ast.UnaryOp)
+          and isinstance(cut[0].value.slice.upper.op, ast.USub) and _int(cut[0].value.slice.upper.operand, "cut") == 4)
+    if not ok:
+        raise Unparsable("the |I16 branch does not cut the line with line[:-4]")
+    for stmts, key in ((ifs[0].body, "hdrWidthBig"), (ifs[0].orelse, "hdrWidthSmall")):
+        sl = slices(stmts, "_loadop4_ascii title line")
+        if set(sl) != {"c_slice", "r_slice", "f_slice", "t_slice", "n_slice"}:
+            raise Unparsable("title-line slices are not c/r/f/t/n")
+        w = sl["c_slice"][1]
+        want = {"c_slice": (0, w), "r_slice": (w, 2 * w), "f_slice": (2 * w, 2 * w + 8), "t_slice": (2 * w + 8, 2 * w + 16),
+                "n_slice": (2 * w + 16, 2 * w + 24)}
+        if sl != want:
+            raise Unparsable("title-line slices %s are not the contiguous layout of width %d" % (sl, w))
+        c[key] = w
+    # the column-header slices (literals in the Lean model)
+    direct = slices(la.body, "_loadop4_ascii column header")
+    if direct != {"c_slice": (0, 8), "r_slice": (8, 16)}:
+        raise Unparsable("_loadop4_ascii reads the first column header with %s" % direct)
+    for fn, want in (("_rd_dense_ascii", {"c_slice": (0, 8), "r_slice": (8, 16), "e_slice": (16, 24)}),
+                     ("_rd_bigmat_ascii", {"c_slice": (0, 8), "r_slice": (8, 16), "e_slice": (16, 24)}),
+                     ("_rd_nonbigmat_ascii", {"c_slice": (0, 8), "e_slice": (16, 24)}),
+                     ("_skipop4_ascii", {"c_slice": (0, 8), "r_slice": (8, 16), "e_slice": (16, 24)})):
+        got = slices(_func(cls, fn).body, fn)
+        if got != want:
+            raise Unparsable("%s: column-header slices are %s, the model has %s" % (fn, got, want))
     return c
 
 
-ORDER = ["rows4bigmat", "rowsCutoff", "numlenBase", "lineWidth", "hdrReclen", "isShiftW", "isShiftR"]
+ORDER = ["rows4bigmat", "rowsCutoff", "numlenBase", "lineWidth", "hdrReclen", "isShiftW", "isShiftR",
+         "defaultPerline", "defaultNumlen", "hdrWidthSmall", "hdrWidthBig"]
 DOC = {
     "rows4bigmat": "OP4.__init__: self._rows4bigmat",
     "rowsCutoff": "OP4.__init__: self._rowsCutoff (struct.unpack vs numpy.fromfile switch)",
@@ -138,6 +202,10 @@ DOC = {
     "hdrReclen": "_write_binary_header: record length of the 5i8si header record",
     "isShiftW": "nonbigmat writers: IS = (r0 + 1) + ((L + 1) << isShiftW)",
     "isShiftR": "nonbigmat readers: L = (IS >> isShiftR) - 1",
+    "defaultPerline": "_loadop4_ascii: values per line when the title line announces no format",
+    "defaultNumlen": "_loadop4_ascii: field width when the title line announces no format",
+    "hdrWidthSmall": "_loadop4_ascii: width of the cols/rows fields of a plain title line",
+    "hdrWidthBig": "_loadop4_ascii: width of the cols/rows fields of a title line ending in |I16",
 }
 
 
